@@ -34,6 +34,7 @@ def rule_send(ctx: Ctx):
         facts = {xshow(b.term, evs): b.x["taken"] for b in p.of("branch")}
         declared = any(v is True and k in (f"{ev} in self.__class__._events", f"{ev} in self._events", f"{ev} in type(self)._events",
                                            f"{ev} in self.__class__._events.keys()") for k, v in facts.items())
+        fired = 0
         for c in p.calls():
             f = c.term.func
             if not (isinstance(f, ast.Name) and f.id.startswith("$c") and f.id[2:].isdigit()):
@@ -43,6 +44,7 @@ def rule_send(ctx: Ctx):
                 continue
             stxt = show(src.term.func)
             n += 1
+            fired += 1
             if stxt in ("BoundEvent", "Event"):
                 kw = {k.arg: show(k.value) for k in src.term.keywords}
                 pos = [show(a) for a in src.term.args]
@@ -59,6 +61,10 @@ def rule_send(ctx: Ctx):
                           fn.key, norm_stmt(src.node), guards=[f"{k}=={v}" for k, v in facts.items()], has_default=has_default)
             else:
                 rep.violation("C13.send", c.loc(), f"send() calls the result of `{stxt}(...)`", fn.key, norm_stmt(src.node))
+        if p.kind in ("return", "fall") and fired != 1:
+            rep.violation("C13.send", fn.loc(), "send() is the event call: every path that returns has called the looked-up (or freshly built) "
+                          f"event exactly once - this one calls it {fired} time(s), so what happens to the event is decided differently from `sm.<event>()`",
+                          fn.key, "; ".join(f"{xshow(b.term, evs)}={b.x['taken']}" for b in p.of("branch"))[:200])
     rep.floor("C13.send", "call sites through a looked-up/constructed event in send()", n, 2)
     # the caller's own object is never called as is (a trigger bound to another machine would fire there)
     for p in ctx.paths(fn, inline=None, exc_edges="none"):
@@ -229,4 +235,12 @@ def rule_bind(ctx: Ctx, rule: str = "C13.bind"):
     rep.floor(rule, "binding sites in bind_events_to", n, 1)
 
 
-RULES = [rule_send, rule_match, rule_single, rule_lists, rule_bind]
+def rule_bound_stays_bound(ctx: Ctx):
+    """C13.bind: a bound event stays tied to the machine of the object graph it lives in - copying that graph does not
+    leave it pointing at another machine (no copy hook on Event/BoundEvent answering with the object itself)."""
+    from . import c17
+
+    c17.rule_copy_hooks(ctx, rule="C13.bind")
+
+
+RULES = [rule_send, rule_match, rule_single, rule_lists, rule_bind, rule_bound_stays_bound]
